@@ -11,10 +11,10 @@ TEXT = {
          "schedules are not explored; the mutex meta-theorem is assumed; only InMemoryStorage so far"),
  "C04": ("proof", "5-C04", "Compare-and-set contract of set_trial_state_values (RUNNING succeeds only from WAITING: behaviour case `lost` returns False and changes nothing) and the WAITING-cursor invariant R4, discharged for all inputs/pre-states.",
          "atomicity via C03; RDB CAS assumed; in-memory backend"),
- "C12": ("proof", "5-C12", "Invariant R5 (best_trial_id is None iff no COMPLETE trial; otherwise it names a COMPLETE trial no other COMPLETE trial strictly beats in the study's direction, ±inf included) is preserved by every mutating method, and get_best_trial's postcondition follows from it.",
-         "COMPLETE values are one non-NaN float per objective (precondition); RDB ranking SQL not covered"),
- "C20": ("proof", "5-C20", "Frame obligations generated automatically for every heap array a setter's contract does not list in `modifies`: every FrozenTrial object and every dict/list hanging off one that was allocated before the call is unchanged afterwards (copy-on-write discipline), for all inputs and pre-states.",
-         "in-memory backend; nested JSON values treated as immutable"),
+ "C12": ("proof", "5-C12", "Invariant R5 (best_trial_id is None iff no COMPLETE trial; otherwise it names a COMPLETE trial no other COMPLETE trial strictly beats in the study's direction, ±inf included) is preserved by every mutating method, and get_best_trial's postcondition follows from it. BaseStorage.get_best_trial (the generic scan used by journal/cached/gRPC storages) returns a COMPLETE current trial no COMPLETE trial beats, and Study.best_trial returns a deep copy of such a trial or, in the constraint fallback, of a feasible trial no feasible COMPLETE trial beats, computed from the storage's CURRENT trials (all discharged by z3 against an abstract storage contract).",
+         "COMPLETE values are one non-NaN float per objective (precondition); RDB ranking SQL not covered; _get_feasible_trials is an assumed contract (feasibility predicate uninterpreted); Pareto front (best_trials) only via the bounded lattice stand-in"),
+ "C20": ("proof", "5-C20", "Frame obligations generated automatically for every heap array a setter's contract does not list in `modifies`: every FrozenTrial object and every dict/list hanging off one that was allocated before the call is unchanged afterwards (copy-on-write discipline), for all inputs and pre-states. Study.best_trial returns a fresh deep copy (object and all five attribute dicts fresh); _tell_with_warning and Trial.__init__/_suggest never write to a trial object that existed before the call; journal replay handlers replace, never mutate, shared trial objects.",
+         "in-memory and journal backends; nested JSON values treated as immutable; RDB/cached/gRPC getters not covered"),
 }
 TECH = "contract-based deductive verification: VCs generated from the real Python AST by symbolic execution (pyvc), discharged by z3 / cvc5"
 
